@@ -251,6 +251,22 @@ def build():
     one(r"pub\s+fn\s+expired\(&self\)\s*->\s*bool\s*\{\s*let\s+elapsed\s*=\s*self\.created_at\.elapsed\(\);\s*elapsed\s*>\s*self\.valid_for\s*\}", nd, "Node::expired")
     one(r"let\s+ce\s*=\s*self\.node_cache\.get\(name\)\.await\?;\s*if\s+ce\.expired\(\)\s*\{\s*return\s+None;\s*\}", nd, "cache_lookup drops expired nodes")
 
+    # ---- the node cache path
+    gn = fn_body(ctx, "get_node")
+    fc = fn_body(ctx, "find_closest_node")
+    one(r"^\s*if\s+let\s+Some\(node\)\s*=\s*self\.cache_lookup\(name\)\.await\s*\{\s*return\s+Ok\(node\);\s*\}", gn, "get_node: exact cache hit first")
+    one(r"if\s+ta_owner\.name_eq\(name\)\s*\{", gn, "get_node: the anchor itself")
+    one(r"let\s+mut\s+signer_node\s*=\s*node\.clone\(\);", gn, "get_node: signer node starts as the closest node")
+    one(r"if\s+!node\.intermediate\(\)\s*\{\s*signer_node\s*=\s*node\.clone\(\);\s*\}", gn, "get_node: intermediate nodes do not become signer")
+    one(r"ValidationState::Secure\s*=>\s*\(\),\s*ValidationState::Insecure\s*\|\s*ValidationState::Bogus\s*=>\s*\{\s*return\s+Ok\(node\);\s*\}\s*ValidationState::Indeterminate\s*=>\s*\{\s*return\s+Ok\(node\);", gn, "get_node: only secure nodes are descended from")
+    one(r"if\s+ta_owner\.name_eq\(&curr\)\s*\{", fc, "find_closest_node: stop at the anchor")
+    plain_hit = len(re.findall(r"if\s+let\s+Some\(node\)\s*=\s*self\.cache_lookup\(&curr\)\.await\s*\{\s*return\s+Ok\(\(node,\s*names\)\);\s*\}", fc))
+    skip_hit = len(re.findall(r"if\s+let\s+Some\(node\)\s*=\s*self\.cache_lookup\(&curr\)\.await\s*\{\s*if\s+!node\.intermediate\(\)\s*\{\s*return\s+Ok\(\(node,\s*names\)\);\s*\}\s*\}", fc))
+    if plain_hit + skip_hit != 1:
+        raise GenError("find_closest_node: cache branch not recognised")
+    defs.append(("closest_skips_intermediate", "bool", "true" if skip_hit else "false"))
+    one(r"names\.push_front\(curr\.clone\(\)\);\s*curr\s*=\s*curr\s*\.parent\(\)", fc, "find_closest_node: walk to the parent")
+
     # ---- NSEC3 closest-encloser walk: the candidate flag is reset whenever a name is neither matched nor usable
     nx3 = fn_body(src, "nsec3_for_not_exists")
     if len(re.findall(r"maybe_ce_exists\s*=\s*true;", nx3)) != 2 or len(re.findall(r"maybe_ce_exists\s*=\s*false;", nx3)) != 3:
